@@ -237,6 +237,30 @@ def Rule.filter (r : Rule) : Expr :=
   | some ig => .and assign (.not ig)
   | none => assign
 
+/-! ### the statements of a rule body, in source order
+
+  `assign where` / `ignore where` may be written in any order and interleaved with the attribute assignments.  The
+  parser (config_parser.yy:494-566) ORs every `assign where` into `m_Assign.top()` and every `ignore where` into
+  `m_Ignore.top()` as it meets them; the two are combined once, at the end of the rule (config_parser.yy:1190-1214).
+  So a rule is its two lists, each in source order; how the two kinds interleave is forgotten. -/
+
+inductive Stmt
+  | assign (e : Expr)
+  | ignore (e : Expr)
+  deriving DecidableEq, Repr, Inhabited
+
+/-- `m_Assign` / `m_Ignore` after the statements `ss` (as lists; `orAll` is the left-nested `||` the parser builds) -/
+def collectStmts (ss : List Stmt) : List Expr × List Expr :=
+  (ss.filterMap fun s => match s with | .assign e => some e | .ignore _ => none,
+   ss.filterMap fun s => match s with | .ignore e => some e | .assign _ => none)
+
+/-- the rule with the given statements -/
+def Rule.withStmts (r : Rule) (ss : List Stmt) : Rule :=
+  { r with assign := (collectStmts ss).1, ignore := (collectStmts ss).2 }
+
+/-- the same rule with its statements written in reverse order -/
+def Rule.revStmts (r : Rule) : Rule := { r with assign := r.assign.reverse, ignore := r.ignore.reverse }
+
 /-- The inventory: host names and (host, short name) pairs of the services. -/
 structure Inventory where
   hosts : List String
@@ -463,6 +487,16 @@ def plainFull (w : World) (rules : Rules) (inv : Inventory) : LoadResult :=
 def indexedFull (w : World) (rules : Rules) (inv : Inventory) : LoadResult :=
   indexed w rules (extend inv (indexedOutcomes w rules inv))
 
+/-! ### the same configuration written in another order
+
+  What the harness's permuted variant loads: the rules in reverse order (a `to Service` rule may precede the
+  `apply Service` rule that creates its targets), each with its statements in reverse order, the services and the hosts
+  in reverse order. -/
+
+def permRules (rules : Rules) : Rules := (rules.map fun p => (p.1, p.2.revStmts)).reverse
+
+def permInv (inv : Inventory) : Inventory := { hosts := inv.hosts.reverse, services := inv.services.reverse }
+
 /-! ## API queries (lib/remote/filterutility.cpp:272-336) -/
 
 /-- the navigation fields today: those of Checkable (checkable.ti:30-51,182), for a Service also `host`
@@ -535,5 +569,22 @@ def apiTargets (w : World) (fvars : Option (List (String × Val))) (ty : TgtType
     match getTargetServices (apiConsts fvars) e with
     | some names => some ((names.map fun p => Val.service p.1 p.2).filter fun t => (targets inv .service).contains t)
     | none => apiSlow w fvars ty e inv
+
+/-! ### what the HTTP handlers make of the target list
+
+  `ObjectQueryHandler` (objectqueryhandler.cpp:157-196), `ActionsHandler` (actionshandler.cpp:50-100), and likewise
+  `ModifyObjectHandler` / `DeleteObjectHandler`, walk the vector `GetFilterTargets` returned and produce one entry of
+  `results` per element: an object that is in the vector twice is listed / acted upon twice. -/
+
+/-- `GET /v1/objects/<type>`: the number of `results`; `none`: 404 (the filter raised) -/
+def queryResults (l : Option (List Val)) : Option Nat := l.map List.length
+
+/-- `POST /v1/actions/<action>`: the number of `results` = invocations of the action; `none`: 404 (the filter raised
+    or no object was found, actionshandler.cpp:58-70) -/
+def actionResults (l : Option (List Val)) : Option Nat :=
+  match l with
+  | none => none
+  | some [] => none
+  | some l => some l.length
 
 end Icinga.C16
